@@ -250,6 +250,37 @@ fn run(name: &str) -> String {
             }
             format!("{} of 20020 quantiles outside [min,max]; first: {}", bad, worst)
         }
+        "td_huge_two" => {
+            let mut t = TDigestMut::new(100);
+            t.update(-1.7e308); t.update(1.7e308);
+            let mut t2 = TDigestMut::new(100);
+            for v in [-1.7e308, -1.0e308, -1.0e308, -1.0e308, 1.0e308, 1.0e308, 1.0e308, 1.7e308] { t2.update(v); }
+            let _ = t2.serialize();
+            format!("rank(5.9e307)={:?} quantile(0.4)={:?} | t2: rank(0)={:?} quantile(0.5)={:?} quantile(0.3)={:?}", t.rank(5.897521747121351e307), t.quantile(0.4), t2.rank(0.0), t2.quantile(0.5), t2.quantile(0.3))
+        }
+        "td_huge_range" => {
+            // finite values of huge magnitude on both sides of zero: rank / quantile must stay in range and monotone
+            let mut t = TDigestMut::new(100);
+            for i in 0..2000 { let x = (i as f64 / 1999.0 - 0.5) * 3.4e307 * 10.0; t.update(x); }
+            let min = t.min_value().unwrap(); let max = t.max_value().unwrap();
+            let mut out = vec![];
+            let mut prev = f64::NEG_INFINITY;
+            for j in 0..=40 {
+                let q = j as f64 / 40.0;
+                let v = t.quantile(q).unwrap();
+                if !(v >= min && v <= max) || !(v >= prev) { out.push(format!("quantile({q})={v}")); }
+                if v.is_finite() { prev = v; }
+            }
+            let mut prevr = -1.0;
+            for j in 0..=40 {
+                let v = min / 1.0 + (j as f64 / 40.0) * (max / 2.0 - min / 2.0) * 2.0;
+                let v = if v.is_finite() { v } else { (j as f64 / 40.0 - 0.5) * 3.4e307 * 10.0 };
+                let r = t.rank(v).unwrap();
+                if !(r >= 0.0 && r <= 1.0) || !(r >= prevr) { out.push(format!("rank({v})={r}")); }
+                if r.is_finite() { prevr = r; }
+            }
+            format!("min={min} max={max} bad={:?}", out)
+        }
         "td_cdf_empty" => {
             let mut t = TDigestMut::new(100);
             for i in 0..100 { t.update(i as f64); }
